@@ -38,7 +38,9 @@ __CPROVER_ensures(iora_exc == EXC_HttpRequestNotSentError ==> G_send_calls == __
 /* E2 the request is handed to the transport at most once per attempt */ \
 __CPROVER_ensures(G_send_calls == __CPROVER_old(G_send_calls) || G_send_calls == __CPROVER_old(G_send_calls) + 1) \
 /* E3 (documented classification) once the pre-send region is entered, a failure that is NOT reported as not-sent/framing happened at or after the send */ \
-__CPROVER_ensures((iora_exc == EXC_runtime_error && G_presend_entered) ==> G_send_calls == __CPROVER_old(G_send_calls) + 1)
+__CPROVER_ensures((iora_exc == EXC_runtime_error && G_presend_entered) ==> G_send_calls == __CPROVER_old(G_send_calls) + 1) \
+/* E4 a framing error raised in the pre-send region is never downgraded to the retryable not-sent class */ \
+__CPROVER_ensures(G_presend_framing ==> iora_exc == EXC_HttpFramingError)
 
 Response HttpClient_executeRequest_contract(HttpClient *self, iora_sv method, iora_sv url, iora_sv body, iora_hdrs headers)
 EXEC_PRE
@@ -146,7 +148,7 @@ SessionId HttpClient_acquireConnection(HttpClient *self, ParsedUrl u)
   G_presend_entered = true;
   int o = nondet_int();
   if (o == 1) { iora_exc = EXC_runtime_error; return 0; }        /* connect / DNS failure: the connection (if any) is cleaned up by acquireConnection itself */
-  if (o == 2) { iora_exc = EXC_HttpFramingError; return 0; }     /* "today impossible" - kept to check that the guard does not downgrade it */
+  if (o == 2) { iora_exc = EXC_HttpFramingError; G_presend_framing = true; return 0; }     /* "today impossible" - kept to check that the guard does not downgrade it */
   G_acquired = true; G_sid = nondet_u64(); return G_sid;
 }
 void HttpClient_dropConnection(HttpClient *self, iora_sv hostPort, SessionId sid)
@@ -184,7 +186,7 @@ Response HttpClient_executeRequest(HttpClient *self, iora_sv method, iora_sv url
 {
   (void)body; (void)headers;
   Response r = Response_DEFAULT;
-  G_presend_entered = false; G_acquired = false; G_sid = 0; G_dropped = false; G_drop_calls = 0; G_send_ok = false; G_async_ok = false; G_rrc_called = false; G_rrc = false;
+  G_presend_entered = false; G_presend_framing = false; G_acquired = false; G_sid = 0; G_dropped = false; G_drop_calls = 0; G_send_ok = false; G_async_ok = false; G_rrc_called = false; G_rrc = false;
   G_fr_force_evict = false; G_fr_mode = BodyMode_CloseDelimited; G_peer_closed_body = false; G_recv_calls = 0;
   G_reuse_cfg = self->_config.reuseConnections;
   bool framing_before = G_framing_seen; int sent_before = G_possibly_sent;
